@@ -38,4 +38,44 @@ def r_sample(ex, st, node, args, kw):
     return v
 
 
-RANDOM = {"sample": VFunc("random.sample", impl=r_sample)}
+def r_choices(ex, st, node, args, kw):
+    """random.choices(population, weights=w, k=1): demonic choice of one position j with w[j] > 0 (A-LIB: an entry of weight zero is
+    never drawn; IndexError on an empty population; ValueError when the number of weights differs or their total is not positive).
+    The call-site arguments are checked against the caller contract's `callsite_random_choices(population, weights, ...)` clause."""
+    from .calls import apply_spec
+    if len(args) != 1 or set(kw) - {"weights", "k"}:
+        raise OutOfReach("random.choices shape")
+    pop, w, k = args[0], kw.get("weights"), kw.get("k")
+    if not isinstance(pop, VSeq) or (w is not None and not isinstance(w, VSeq)):
+        raise OutOfReach("random.choices arguments")
+    if k is not None and not (z3.is_int_value(z3.simplify(k.term)) and z3.simplify(k.term).as_long() == 1):
+        raise OutOfReach("random.choices with k != 1")
+    L = z3.Length(pop.term)
+    ex.need(st, L > 0, "IndexError", node, "random.choices: empty population")
+    j = z3.Int(S.fresh_name("draw"))
+    st.facts.append(z3.And(j >= 0, j < L))
+    if w is not None:
+        ex.need(st, z3.Length(w.term) == L, "ValueError", node, "random.choices: number of weights")
+        sp = ex.ctx.registry.specs.get("ssum") if ex.ctx.registry else None
+        if sp is not None and w.elem in (S.Real, S.Float):
+            tot = apply_spec(ex, sp, [w, VNum(z3.Length(w.term), "int")], st).term
+            ex.need(st, tot > 0, "ValueError", node, "random.choices: total of weights must be greater than zero")
+        st.facts.append(w.term[j] > 0)
+    frame = ex.fn_stack[-1]
+    info = frame[1] if len(frame) > 1 else None
+    cl = info.clause("callsite_random_choices") if info is not None else None
+    if cl is not None:
+        from .loops import eval_clause
+        from .sorts import NONE
+        extra = {"population": pop, "weights": w if w is not None else NONE}
+        g = eval_clause(ex, info, cl, st, extra)
+        ex.ctx.oblige(st, g, "callsite[random.choices]", f"{ex.relpath}:{node.lineno}", ex.guards)
+    ex.ctx.ghost_log.append(("random.choices", f"{ex.relpath}:{node.lineno}"))
+    ex.ctx.rng_used = True
+    r = z3.Unit(pop.term[j])
+    v = VSeq(r, pop.elem, "list")
+    st.env["_draw"] = VNum(j, "int")  # ghost: the drawn position (visible to hint clauses)
+    return v
+
+
+RANDOM = {"sample": VFunc("random.sample", impl=r_sample), "choices": VFunc("random.choices", impl=r_choices)}
